@@ -33,6 +33,12 @@ CHECKS = {
  "C02": ("exploration", "unique-tag conservation monitor at the client boundary over long publish streams against a broker node with the real on-disk commit log, behind a sentinel barrier",
          "2200 (quick) / 6000 (thorough) uniquely tagged, content-hashed messages from concurrent publishers cross the first log offset, segment rolls and the truncation point; further streams run after node restarts on the same data directory and with an inbound/outbound packet-identifier collision; every acknowledged QoS>=1 publish must reach every subscriber that stayed connected, intact.",
          "Duplicates allowed, QoS 0 publishes exempt. Barrier relies on per-publisher ordering and the FIFO log consumer/writer.", "5/C02"),
+ "C07": ("exploration", "reference-model monitor (map topic -> last retained payload, filtered by the MQTT matcher) at store level for every filter, and at the client boundary between SUBACK and a two-stage barrier",
+         "Store level: after seeded Set/Delete histories on the real replicated retained store, Get(filter) is compared with the model for every valid filter of <=4 levels over the alphabet (complete per history). End to end: histories of retained publishes, clears and subscribes on one node and on a second node after the gossip barrier; each new subscription must get exactly one retain-flagged copy per matching model topic with the latest payload, cleared topics nothing, standing subscribers unflagged live copies.",
+         "One filter per SUBSCRIBE. Publishes wait for PUBACK and for the standing subscriber's live copy before the next step (recipients are resolved when the writer handles a message).", "5/C07"),
+ "C03": ("exploration", "trace-specification monitor over packets written to subscriber pipes, driven by forced expiry sweeps and scripted client replies",
+         "Seeded response scripts (acknowledge in round k or never, QoS 2 two-stage, wrong-type and unknown-identifier replies, session end) over 1-4 in-flight deliveries on 1-3 sessions; after every forced sweep and PINGRESP barrier each delivery is checked against the retransmission specification (>=1+k copies with the same identifier, PUBREL stage, nothing after completion, identifier back in the pool, identifiers freed after session end).",
+         "The harness owns the ack.Queue and calls Expire with synthetic future times; hook H1 reads the pool's free list. Lower bounds only (the 1 s ticker may add copies).", "5/C03"),
 }
 NOT_YET = "check not built yet in this round (design in DESIGN.md section 5); will be claimed once its monitor exists"
 
